@@ -74,8 +74,9 @@ Lemma assume_obj_idx_perm real syms antis t s t' : assume_obj real syms antis t 
 Proof. unfold assume_obj. destruct real; [|apply apply_braket_idx_perm].
   destruct (apply_braket_obj _ antis t) as [| |s1 t1] eqn:E1; simpl; try discriminate.
   destruct (make_real_obj t1) as [| |s2 t2] eqn:E2; simpl; try discriminate.
+  destruct (apply_braket_obj _ antis t2) as [| |s3 t3] eqn:E3; simpl; try discriminate.
   intros H; inversion H; subst. rewrite (apply_braket_idx_perm _ _ _ _ _ E1).
-  apply (make_real_idx_perm _ _ _ E2). Qed.
+  rewrite (make_real_idx_perm _ _ _ E2). apply (apply_braket_idx_perm _ _ _ _ _ E3). Qed.
 
 Lemma assume_facs_idx_perm real syms antis fs : forall s fs',
   assume_facs real syms antis fs = FOk s fs' -> Permutation (mono_idx fs) (mono_idx fs').
@@ -114,15 +115,8 @@ Add Ring KR10 : (Kring S).
 
 Variable real : bool.
 Variables syms antis : list string.
-Let syms' := if real then "f"%string :: "V"%string :: syms else syms.
-
-(* the tensor model satisfies the assumptions for the tensor t *)
-Definition model_satisfies (t : tens) : Prop :=
-  (smem (tname t) syms' = true -> declared_as S T (tname t) (tbks t) 1) /\
-  (smem (tname t) antis = true -> declared_as S T (tname t) (tbks t) (-1)) /\
-  (real = true -> forall k b u l, tv T KAmp (real_name (tname t)) b u l = tv T k (tname t) b u l).
 Definition facs_satisfy (fs : list factor) : Prop :=
-  forall t inv, In (ATens t, inv) fs -> model_satisfies t.
+  forall t inv, In (ATens t, inv) fs -> model_satisfies S T real syms antis t.
 
 Lemma kinv_ksgn s x : kinv S (ksgn s * x) = ksgn s * kinv S x.
 Proof. destruct s; simpl.
@@ -140,8 +134,7 @@ Proof. induction fs as [|[a inv] rest IH]; intros Hs r.
   - assert (Hrest : facs_satisfy rest) by (intros t i Hin; apply (Hs t i); right; exact Hin).
     specialize (IH Hrest r). simpl. unfold mono_val in *. simpl.
     destruct a as [t|i j|nm|q|p].
-    + destruct (Hs t inv (or_introl eq_refl)) as (M1 & M2 & M3).
-      pose proof (assume_sound S T R r real syms antis t M1 M2 M3) as Ht.
+    + pose proof (assume_sound S T R r real syms antis t (Hs t inv (or_introl eq_refl))) as Ht.
       destruct (assume_obj real syms antis t) as [| |s1 t1];
         destruct (assume_facs real syms antis rest) as [| |s2 r2]; simpl in *; auto.
       * destruct inv; [exact I|]. change (fac_val S T r (ATens t, false)) with (tens_val S T r t). rewrite (Ht H2). ring.
